@@ -237,8 +237,8 @@ fn epoch_grid(report: &mut Report) {
                 if next.length() < MIN_LEN.min(*l / 2).max(1) || next.length() > MAX_LEN || next.length() > l * 2 || next.length() < l / 2 {
                     bad.push(format!("length {} outside [min,max] and [L/2,2L] of L={l}", next.length()));
                 }
-                if next.compact_target() != difficulty_to_compact(want_diff.clone()) {
-                    bad.push(format!("compact target {:#x} != compact(reference difficulty {:#x}) = {:#x}", next.compact_target(), want_diff, difficulty_to_compact(want_diff.clone())));
+                if next.compact_target() != ref_difficulty_to_compact(&big(&want_diff)) {
+                    bad.push(format!("compact target {:#x} != compact(reference difficulty {:#x}) = {:#x}", next.compact_target(), want_diff, ref_difficulty_to_compact(&big(&want_diff))));
                 }
                 if compact_to_difficulty(next.compact_target()).is_zero() {
                     bad.push("next difficulty is zero".into());
@@ -369,7 +369,67 @@ fn fractions(report: &mut Report) {
     report.nontrivial.insert(fp(&"fractions"));
 }
 
+/// Reference encoder, written from the format: target = floor(2^256 / difficulty) (difficulty 1:
+/// the largest representable target), compact = (number of bytes of the target) << 24 | its top
+/// three bytes (all 24 bits of the mantissa are used).
+fn ref_difficulty_to_compact(d: &BigUint) -> u32 {
+    let one = BigUint::from(1u32);
+    let max: BigUint = (&one << 256) - &one;
+    let target: BigUint = if *d <= one { max.clone() } else { ((&one << 256) / d).min(max) };
+    let bytes = target.to_bytes_be();
+    let bytes: Vec<u8> = if target == BigUint::from(0u32) { vec![] } else { bytes };
+    let mut size = bytes.len() as u32;
+    let mut mant: u32 = if size <= 3 {
+        let mut v = 0u32;
+        for b in &bytes {
+            v = (v << 8) | *b as u32;
+        }
+        v << (8 * (3 - size))
+    } else {
+        ((bytes[0] as u32) << 16) | ((bytes[1] as u32) << 8) | bytes[2] as u32
+    };
+    // (ckb's format uses all 24 bits of the mantissa: there is no sign bit to keep clear)
+    let _ = &mut size;
+    let _ = &mut mant;
+    (size << 24) | mant
+}
+
+fn difficulty_encoding(report: &mut Report) {
+    // every power of two, its neighbours, and multiples that fill the mantissa
+    let one = BigUint::from(1u32);
+    let mut ds: Vec<BigUint> = vec![];
+    for k in 0..=255usize {
+        let p = &one << k;
+        ds.push(p.clone());
+        ds.push(&p + &one);
+        if k > 0 {
+            ds.push(&p - &one);
+        }
+        ds.push(&p * 3u32);
+        ds.push(&p * 0x7fffffu32);
+        ds.push(&p * 0xffffffu32);
+    }
+    let max: BigUint = (&one << 256) - &one;
+    for d in ds {
+        if d > max || d == BigUint::from(0u32) {
+            continue;
+        }
+        let bytes = d.to_bytes_le();
+        let mut le = [0u8; 32];
+        le[..bytes.len()].copy_from_slice(&bytes);
+        let du = U256::from_little_endian(&le).expect("u256");
+        let got = difficulty_to_compact(du.clone());
+        let want = ref_difficulty_to_compact(&d);
+        report.evaluations += 1;
+        if got != want {
+            report.violation("compact/difficulty-encoding", format!("difficulty_to_compact({du:#x}) = {got:#010x}, the format gives {want:#010x}"), json!({"family": "difficulty-encoding", "difficulty": format!("{du:#x}")}));
+        }
+    }
+    report.nontrivial.insert(fp(&"difficulty-encoding"));
+}
+
 fn compact_laws(ctx: &Ctx, report: &mut Report) {
+    difficulty_encoding(report);
     let check = |c: u32, r: &mut Report| {
         let (t, overflow) = compact_to_target(c);
         let exponent = c >> 24;
@@ -412,6 +472,9 @@ fn compact_laws(ctx: &Ctx, report: &mut Report) {
         }
         // fixed point of difficulty -> compact -> difficulty
         let c3 = difficulty_to_compact(d.clone());
+        if c3 != ref_difficulty_to_compact(&want_d) {
+            r.violation("compact/difficulty-encoding", format!("difficulty_to_compact({d:#x}) = {c3:#010x}, the format gives {:#010x}", ref_difficulty_to_compact(&want_d)), json!({"family": "compact", "compact": c}));
+        }
         let d3 = compact_to_difficulty(c3);
         if difficulty_to_compact(d3.clone()) != c3 {
             r.violation("compact/difficulty-fixed-point", format!("difficulty_to_compact(compact_to_difficulty({c3:#010x})) != {c3:#010x}"), json!({"family": "compact", "compact": c}));
